@@ -118,7 +118,9 @@ var sinks = []string{
 }
 
 // sinks for context collections that are emitted without an expression route
-var wholeSinks = []string{"[]string emitted whole", "[]any emitted whole", "for over []string", "for over []any", "for over [2]string", "for over map[string]string", "for over sts"}
+var wholeSinks = []string{"[]string emitted whole", "[]any emitted whole", "for over []string", "for over []any", "for over [2]string", "for over map[string]string", "for over sts",
+	// ONE output tag emits trusted and untrusted values in turn (what it did for the value before says nothing about this one)
+	"for over mixed trust", "mixed trust emitted whole", "fn body called for trusted then string"}
 
 func mkData(p, tag string, partials map[string]string) map[string]interface{} {
 	var v interface{} = p
@@ -134,7 +136,8 @@ func mkData(p, tag string, partials map[string]string) map[string]interface{} {
 		"p":       v, "st": outer{F: p, H: template.HTML(p), Hr: htmler{p}, In: in, P: &in}, "pst": &outer{F: p, H: template.HTML(p), Hr: htmler{p}, In: in, P: &in},
 		"sts": []outer{{F: "zero"}, {F: p, H: template.HTML(p), Hr: htmler{p}}},
 		"ms":  map[string]string{"k": p}, "mi": map[string]interface{}{"k": v},
-		"ss": []string{"s0", p}, "si": []interface{}{"i0", v}, "as": [2]string{"a0", p},
+		"mix": []interface{}{template.HTML("<i>"), p, htmler{"<b>"}, p, template.HTML(p), p},
+		"ss":  []string{"s0", p}, "si": []interface{}{"i0", v}, "as": [2]string{"a0", p},
 		"hs": func() string { return p }, "hi": func() interface{} { return v },
 		"hh": func() template.HTML { return template.HTML(p) }, "hr": func() plush.HTMLer { return htmler{p} },
 		"id": func(x interface{}) interface{} { return x }, "ids": func(s string) string { return s },
@@ -194,6 +197,15 @@ func build(c Case) (src string, partials map[string]string, parts []match.Part, 
 			case "for over map[string]string":
 				sb.WriteString("<%= for (k, x) in ms { %>[<%= k %>=<%= x %>]<% } %>")
 				return sb.String(), partials, []match.Part{match.L("[k="), match.E(p), match.L("]")}, ""
+			case "for over mixed trust":
+				sb.WriteString("<%= for (x) in mix { %>[<%= x %>]<% } %>")
+				return sb.String(), partials, []match.Part{match.L("[<i>]["), match.E(p), match.L("][<b>]["), match.E(p), match.L("]["), match.R(p), match.L("]["), match.E(p), match.L("]")}, ""
+			case "mixed trust emitted whole":
+				sb.WriteString("[<%= mix %>]")
+				return sb.String(), partials, []match.Part{match.L("[<i>"), match.E(p), match.L("<b>"), match.E(p), match.R(p), match.E(p), match.L("]")}, ""
+			case "fn body called for trusted then string":
+				sb.WriteString("<% let show = fn(x) { %>[<%= x %>]<% } %><%= show(trusted) %><%= show(p) %><%= show(trusted) %><%= show(p) %>")
+				return sb.String(), partials, []match.Part{match.L("[<em>T</em>]["), match.E(p), match.L("][<em>T</em>]["), match.E(p), match.L("]")}, ""
 			default:
 				sb.WriteString("<%= for (o) in sts { %>[<%= o." + fld(c.Tag) + " %>]<% } %>")
 				if c.Tag == "string" {
